@@ -41,7 +41,8 @@ def frac_to_py(fr):
 
 class Stats:
     FIELDS = ("paths", "aborted", "queries", "decisions", "obligations", "discharged", "sat", "unknown",
-              "feas_unknown", "validated", "validation_mismatch", "twins", "twins_sat")
+              "feas_unknown", "validated", "validation_mismatch", "twins", "twins_sat",
+              "cvc5_checked", "cvc5_agree", "cvc5_unknown", "cvc5_disagree")
 
     def __init__(self):
         for f in self.FIELDS:
@@ -70,6 +71,9 @@ class Explorer:
         self.logic = logic            # e.g. "QF_NRA": fresh non-incremental solver per query
         self.margin = margin          # decision margin (Fraction) for real comparisons, or None
         self.max_candidates = max_candidates
+        import os as _os
+        ce = _os.environ.get("SYMX_CVC5")
+        self.crosscheck_every = int(ce) if ce else (97 if _os.environ.get("VERIF_TIER") == "thorough" else 499)
         self.stats = Stats()
         self.stack = []               # entries [taken, alt_pending, payload]
         self.inputs = {}              # name -> python structure of proxies (for model extraction)
@@ -251,6 +255,52 @@ class Explorer:
             if r == "sat":
                 return "sat", s.model()
         return "unknown", None
+
+    def _cvc5_crosscheck(self, extra, group=None):
+        """second solver on a sample of discharged obligations (thorough tier / SYMX_CVC5=1): the same query is
+        re-decided by cvc5; 'sat' from cvc5 where z3 said unsat is a harness error, unknown is only counted."""
+        try:
+            import cvc5
+        except ImportError:
+            return
+        cons = []
+        for c in self.constraints:
+            cg = self.groups.get(c.get_id())
+            if cg is None or cg == group:
+                cons.append(c)
+        zs = z3.Solver()
+        zs.add(*cons)
+        zs.add(*extra)
+        smt2 = zs.to_smt2()
+        if "(set-logic" not in smt2:
+            smt2 = "(set-logic ALL)\n" + smt2
+        self.stats.cvc5_checked += 1
+        t0 = time.time()
+        res = None
+        try:
+            tm = cvc5.TermManager()
+            slv = cvc5.Solver(tm)
+            slv.setOption("tlimit-per", "8000")
+            ip = cvc5.InputParser(slv)
+            ip.setStringInput(cvc5.InputLanguage.SMT_LIB_2_6, smt2, "q")
+            sm = ip.getSymbolManager()
+            while True:
+                cmd = ip.nextCommand()
+                if cmd.isNull():
+                    break
+                out = str(cmd.invoke(slv, sm)).strip()
+                if out in ("sat", "unsat", "unknown"):
+                    res = out
+        except Exception as e:  # noqa   (parse problems etc. count as unknown)
+            res = "unknown"
+        self.stats.solver_time += time.time() - t0
+        if res == "unsat":
+            self.stats.cvc5_agree += 1
+        elif res == "sat":
+            self.stats.cvc5_disagree += 1
+            self.stats.errors.append("cvc5 DISAGREES with z3 (z3 unsat, cvc5 sat) on an obligation of %s" % (self.case_info,))
+        else:
+            self.stats.cvc5_unknown += 1
 
     def _holds_in_model(self, c):
         if self.model is None:
@@ -573,6 +623,8 @@ class Explorer:
                 self.stats.errors.append("unknown(known-region %s): %s" % (fid, name))
         if ok:
             self.stats.discharged += 1
+            if self.crosscheck_every and (self.stats.discharged % self.crosscheck_every == 1 or self.crosscheck_every == 1):
+                self._cvc5_crosscheck(extra, group=group)
         if len(self.stats.samples) < 4:
             self.stats.samples.append({"obligation": name, "case": dict(self.case_info),
                                        "verdict": "unsat" if ok else r, "smt_size": len(t.sexpr())})
